@@ -7,8 +7,10 @@
 //!
 //! C03 judges the sequence semantics (split/merge/insert/remove/first/last/collect/size, aggregates,
 //! lazy modifications applied exactly once and in order).  C16 judges heap order in every state of the
-//! same exploration, plus a menu of long adversarial histories through the real priority generator for
-//! the height bound.
+//! same exploration, plus a directed (not exhaustive) menu of long deterministic histories through the
+//! real priority generator for the height bound: single-treap orders, block concatenation, strided
+//! ownership of the creations by several treaps, insert/remove rhythms, queues, and insertions
+//! interleaved with operations that create no node.
 
 use rlib_treap::{Treap, TreapItem, TreapItemSized, TreapNode};
 use serde::{Deserialize, Serialize};
@@ -212,6 +214,16 @@ fn oracle_get(k: usize) -> u32 {
     }
     let v = o.seq.read().unwrap()[k];
     v
+}
+
+/// first k in [from, from + window) whose oracle value is `probe` (one lock, one scan)
+fn oracle_find(from: usize, window: usize, probe: u32) -> Option<usize> {
+    let _ = oracle_get(from + window); // make sure the stretch is materialised
+    let seq = oracle().seq.read().unwrap();
+    if seq.get(from) == Some(&probe) {
+        return Some(from);
+    }
+    seq[from..(from + window).min(seq.len())].iter().position(|&v| v == probe).map(|i| from + i)
 }
 
 thread_local! {
@@ -491,7 +503,7 @@ impl System for Sys {
                     // test drew priorities the harness did not ask for).
                     let probe = Node::new(It::new(0, 0)).priority;
                     let c = MY_DRAWS.with(|c| c.get());
-                    match (c..c + 4096).find(|&k| oracle_get(k) == probe) {
+                    match oracle_find(c, 4096, probe) {
                         Some(k) => MY_DRAWS.with(|x| x.set(k + 1)),
                         None => note_draws(1),
                     }
@@ -880,12 +892,12 @@ impl Prober {
         self.probes += 1;
         self.maxh = self.maxh.max(h);
         let (name, offset) = (&self.label, self.offset);
-        let wh = which.map_or(String::new(), |(i, k)| format!("treap #{i} of {k}: "));
+        let wh = || which.map_or(String::new(), |(i, k)| format!("treap #{i} of {k}: "));
         if (h as f64) > bound(sz) {
-            return Err(format!("history {name} (offset {offset}): {wh}height {h} at {sz} elements after {steps} operations exceeds 5*log2(n+1)+20 = {:.1}", bound(sz)));
+            return Err(format!("history {name} (offset {offset}): {}height {h} at {sz} elements after {steps} operations exceeds 5*log2(n+1)+20 = {:.1}", wh(), bound(sz)));
         }
         if !heap_ok(t) {
-            return Err(format!("history {name} (offset {offset}): {wh}priorities not heap-ordered in one direction at {sz} elements"));
+            return Err(format!("history {name} (offset {offset}): {}priorities not heap-ordered in one direction at {sz} elements", wh()));
         }
         Ok(())
     }
@@ -1137,12 +1149,7 @@ fn menu_history(hist: Hist, n: usize, offset: usize) -> Result<MenuOk, String> {
 fn menu_case(hist: Hist, n: usize, offset: usize) -> Result<MenuOk, String> {
     std::thread::Builder::new()
         .stack_size(256 << 20)
-        .spawn(move || {
-            let r = menu_history(hist, n, offset);
-            let cpu: f64 = std::fs::read_to_string("/proc/thread-self/schedstat").ok().and_then(|s| s.split_whitespace().next().and_then(|x| x.parse::<f64>().ok())).unwrap_or(0.0) / 1e9;
-            eprintln!("CPU {:.3} {} o={} n={}", cpu, hist.label(), offset, n);
-            r
-        })
+        .spawn(move || menu_history(hist, n, offset))
         .unwrap()
         .join()
         .unwrap_or_else(|_| Err(format!("history {} (offset {offset}) panicked", hist.label())))
@@ -1324,9 +1331,7 @@ fn main() {
                         let j = next.fetch_add(1, Ordering::Relaxed);
                         let Some(&i) = order.get(j) else { break };
                         let (h, o, n) = cases[i];
-                        let t0 = std::time::Instant::now();
                         let r = menu_case(h, n, o);
-                        eprintln!("TIMING {:.3} {} o={} n={}", t0.elapsed().as_secs_f64(), h.label(), o, n);
                         out.lock().unwrap()[i] = Some(r);
                     });
                 }
